@@ -7,7 +7,7 @@ import (
 
 // C12 — output is all-or-nothing and writer failures are reported.
 
-//verif:harness VerifC12_AllOrNothing quick.maxpaths=60000 thorough.maxpaths=400000 timeout=2400 steps=20000000
+//verif:harness VerifC12_AllOrNothing poolreuse=lifo quick.maxpaths=60000 thorough.maxpaths=400000 timeout=2400 steps=20000000
 
 func zzC12FS() *zzFS {
 	return newZZFS(map[string]string{
@@ -83,6 +83,18 @@ func VerifC12_AllOrNothing() {
 	zzNote("got", string(w.got))
 	if err != nil {
 		zzNote("err", err.Error())
+	}
+
+	// whatever happened, the next call on the same engine with a healthy
+	// writer and a live context delivers exactly the document (or fails again)
+	ctx = zzCtx{}
+	again := &zzWriter{limit: 1 << 20}
+	againErr := run(again)
+	ctx = savedCtx
+	if refErr == nil {
+		zzAssert(againErr == nil && string(again.got) == doc, "C12.sequence.next-render-after-a-failure")
+	} else {
+		zzAssert(againErr != nil && len(again.got) == 0, "C12.sequence.next-render-after-a-failure")
 	}
 
 	if cancelled {
